@@ -434,6 +434,23 @@ func r6FileProducers(c *RuleCtx) {
 	for _, fn := range c.p.ZapFuncs {
 		for _, cs := range callSites(fn) {
 			if isCallTo(cs, "os.OpenFile") || isCallTo(cs, "os.Create") {
+				if _, isAcq := fileAcquirer(c.p, fn); isAcq {
+					// hands the open file to its callers: they are the producers
+					for _, cs2 := range c.p.callersOf(fn) {
+						if c.p.InZap(cs2.Parent()) {
+							dup := false
+							for _, q := range producers {
+								if q == cs2.Parent() {
+									dup = true
+								}
+							}
+							if !dup {
+								producers = append(producers, cs2.Parent())
+							}
+						}
+					}
+					break
+				}
 				producers = append(producers, fn)
 				break
 			}
@@ -445,6 +462,22 @@ func r6FileProducers(c *RuleCtx) {
 		for _, f := range producers {
 			if f.Name() == want {
 				found = true
+			}
+		}
+		// a wrapper around the producer (a hook before / after): it hands its path to a producer it calls
+		if wf := c.p.Func(want); wf != nil && !found {
+			if g := producerCalledWithPath(c.p, wf, producers); g != nil {
+				found = true
+			}
+		}
+		// kept as a thin forwarder next to a variant with more parameters that produces the file
+		if wf := c.p.Func(want); wf != nil && !found {
+			if g := c.p.throughForwarders(wf); g != wf {
+				for _, f := range producers {
+					if f == g {
+						found = true
+					}
+				}
 			}
 		}
 		if !found {
@@ -472,6 +505,28 @@ func r6OneProducer(c *RuleCtx, fn *ssa.Function, props []string) {
 		}
 	}
 	if acq == nil {
+		// the file is opened by a helper that hands it back (`f, cleanup, err := createSegmentFile(path)`)
+		for _, cs := range callSites(fn) {
+			k := staticCallee(cs)
+			info, ok := fileAcquirer(c.p, k)
+			call, isCall := cs.(*ssa.Call)
+			if !ok || !isCall {
+				continue
+			}
+			file := extractOf(call, info.fileIdx)
+			aerr := extractOf(call, info.errIdx)
+			if file == nil || aerr == nil || info.pathIdx >= len(call.Call.Args) {
+				continue
+			}
+			if info.cleanup != nil {
+				if c.r6Cleanup == nil {
+					c.r6Cleanup = map[*ssa.Call]acquirerInfo{}
+				}
+				c.r6Cleanup[call] = info
+			}
+			r6ProducerBody(c, fn, props, name, call, file, aerr, call.Call.Args[info.pathIdx], 0)
+			return
+		}
 		return
 	}
 	file := extractOf(acq, 0)
@@ -544,6 +599,7 @@ func r6ProducerBody(c *RuleCtx, fn *ssa.Function, props []string, name string, a
 	}
 	var syncSites, closeSites []ssa.CallInstruction
 	delegateSucc := map[ssa.CallInstruction]uint64{} // delegate call -> events certain when it returns nil
+	delegateFail := map[ssa.CallInstruction]uint64{} // … and when it returns an error (a delegate that discards the file itself)
 	// a deferred closure that assigns the function's error variable completes the output itself
 	// (`defer func() { if err == nil { err = br.Flush() } ... }()`): its calls are completion steps too
 	var completing []*ssa.Function
@@ -607,7 +663,19 @@ func r6ProducerBody(c *RuleCtx, fn *ssa.Function, props []string, name string, a
 					if (sameValue(a, file) || sameValue(root(a), file)) && depth < 2 && ai < len(callee.Params) && len(callee.Blocks) > 0 && (isNamed(callee.Params[ai].Type(), "os", "File") || isWriterInterface(callee.Params[ai].Type())) {
 						// handed the file itself: a delegate, judged by the same discipline
 						if _, done := delegateSucc[cs]; !done {
-							delegateSucc[cs] = r6ProducerBody(c, callee, props, name+">"+callee.Name(), nil, callee.Params[ai], nil, nil, depth+1)
+							// the path, if the delegate is handed it too (it may then discard the file itself)
+							var dpath ssa.Value
+							if pathArg != nil {
+								for aj, a2 := range cs.Common().Args {
+									if aj < len(callee.Params) && sameValue(a2, pathArg) {
+										dpath = callee.Params[aj]
+									}
+								}
+							}
+							delegateSucc[cs] = r6ProducerBody(c, callee, props, name+">"+callee.Name(), nil, callee.Params[ai], nil, dpath, depth+1)
+							if c.r6Fail != nil {
+								delegateFail[cs] = c.r6Fail[callee]
+							}
 						}
 					}
 					break
@@ -961,6 +1029,36 @@ func r6ProducerBody(c *RuleCtx, fn *ssa.Function, props []string, name string, a
 			return nil
 		}
 		callee := resolvedCallee(cs) // also a closure held in a (captured) local variable
+		if callee == nil && acq != nil && c.r6Cleanup != nil {
+			// the cleanup closure that the acquiring helper handed back with the file
+			if info, ok := c.r6Cleanup[acq]; ok {
+				if ex, ok := resolveLoad(cs.Common().Value).(*ssa.Extract); ok && ex.Tuple == ssa.Value(acq) && ex.Index == info.cleanupIdx {
+					var s uint64
+					closes, removes := false, false
+					must := mustEvents(info.cleanup, func(in ssa.Instruction, ev uint64, _ bool) []uint64 {
+						if c2, ok := in.(ssa.CallInstruction); ok {
+							if f := staticCallee(c2); f != nil {
+								switch f.String() {
+								case "(*os.File).Close":
+									return []uint64{ev | 1}
+								case "os.Remove":
+									return []uint64{ev | 2}
+								}
+							}
+						}
+						return nil
+					})
+					closes, removes = must&1 != 0, must&2 != 0
+					if closes {
+						s |= evClosed
+					}
+					if removes {
+						s |= evRemoved
+					}
+					return []uint64{ev | s}
+				}
+			}
+		}
 		if callee == nil {
 			return nil
 		}
@@ -1139,6 +1237,8 @@ func r6ProducerBody(c *RuleCtx, fn *ssa.Function, props []string, name string, a
 	// run early)
 	// exits
 	succMust := uint64(evClosed | evSync | evOrderly)
+	failMust := uint64(evClosed | evRemoved)
+	failSeen := false
 	nSucc := 0
 	labels := map[string]int{}
 	for _, ret := range returnsOf(fn) {
@@ -1182,12 +1282,31 @@ func r6ProducerBody(c *RuleCtx, fn *ssa.Function, props []string, name string, a
 			// e.g. `return f.Close()`: both disciplines apply
 			key += "/undetermined-error"
 		}
+		if delegateMode && ns != isNil {
+			// what this delegate has certainly done when it reports a failure
+			for _, ev := range states {
+				if ev&evAssumeNil != 0 {
+					continue
+				}
+				failMust &= ev
+				failSeen = true
+			}
+		}
 		if needFail {
+			// a delegate whose error is what is returned here has, in the world where it failed, done what
+			// it does on failure (`err = finishSegmentFile(f, path)` discards the file itself)
+			var viaFailed uint64
+			for dcs, fl := range delegateFail {
+				if dv := errValueOfCall(dcs); dv != nil && v != nil && (sameValue(dv, v) || sameValue(dv, resolveLoad(v))) {
+					viaFailed |= fl
+				}
+			}
 			okc := true
 			for _, ev := range states {
 				if ev&evAssumeNil != 0 {
 					continue // the world in which this exit returns nil
 				}
+				ev |= viaFailed
 				if ev&evClosed == 0 || ev&evRemoved == 0 {
 					okc = false
 				}
@@ -1293,6 +1412,16 @@ func r6ProducerBody(c *RuleCtx, fn *ssa.Function, props []string, name string, a
 	}
 	if nSucc == 0 {
 		return 0
+	}
+	if delegateMode {
+		if c.r6Fail == nil {
+			c.r6Fail = map[*ssa.Function]uint64{}
+		}
+		if failSeen {
+			c.r6Fail[fn] = failMust & (evClosed | evRemoved)
+		} else {
+			c.r6Fail[fn] = 0
+		}
 	}
 	return succMust
 }
@@ -1653,12 +1782,61 @@ func r6Open(c *RuleCtx) {
 			mapCall = call
 		}
 	}
-	if openCall == nil || mapCall == nil {
+	var file, openErr ssa.Value
+	if openCall != nil && mapCall == nil {
+		// Open only opens the file and hands it, wholesale, to a function of the package that maps it and
+		// builds the segment (`return openFile(f, path)`, shared with a variant that is given an open
+		// file): that function is judged, with the file it is handed
+		of := extractOf(openCall, 0)
+		for _, cs := range callSites(fn) {
+			g := staticCallee(cs)
+			call, isCall := cs.(*ssa.Call)
+			if g == nil || !isCall || !c.p.InZap(g) || len(g.Blocks) == 0 {
+				continue
+			}
+			pi := -1
+			for ai, a := range call.Call.Args {
+				if sameValue(a, of) && ai < len(g.Params) {
+					pi = ai
+				}
+			}
+			if pi < 0 {
+				continue
+			}
+			// its results are what Open returns
+			whole := false
+			for _, ret := range returnsOf(fn) {
+				if len(ret.Results) == 2 {
+					if ex, ok := ret.Results[0].(*ssa.Extract); ok && ex.Tuple == ssa.Value(call) {
+						whole = true
+					}
+				}
+			}
+			if !whole {
+				continue
+			}
+			for _, cs2 := range callSites(g) {
+				if f := staticCallee(cs2); f != nil && f.Pkg != nil && f.Pkg.Pkg.Path() == "github.com/blevesearch/mmap-go" && strings.HasPrefix(f.Name(), "Map") {
+					mapCall, _ = cs2.(*ssa.Call)
+				}
+			}
+			if mapCall != nil {
+				// between os.Open and the hand-over Open itself only returns the open error
+				fn, file, openErr = g, g.Params[pi], nil
+				name = "Open>" + g.Name()
+				openCall = nil
+				break
+			}
+		}
+	}
+	if (openCall == nil && file == nil) || mapCall == nil {
 		c.undecidedP(props, name+"/acquisitions", c.fpos(fn), "os.Open and mmap.Map calls are found in Open", "acquisition calls not found")
 		return
 	}
-	file := extractOf(openCall, 0)
-	openErr := extractOf(openCall, 1)
+	if openCall != nil {
+		file = extractOf(openCall, 0)
+		openErr = extractOf(openCall, 1)
+	}
 	mapErr := extractOf(mapCall, 1)
 	// the *Segment under construction
 	var segAlloc *ssa.Alloc
@@ -1826,7 +2004,7 @@ func r6Open(c *RuleCtx) {
 		v, ns := errorOfReturn(ret)
 		key := name + "/" + exitLabel(ret, labels)
 		pos := c.pos(ret)
-		if v != nil && sameValue(v, openErr) && ns == nonNil {
+		if v != nil && openErr != nil && sameValue(v, openErr) && ns == nonNil {
 			c.okP(props, key, pos, "exit after failed os.Open needs no release")
 			continue
 		}
@@ -2632,6 +2810,19 @@ func r6FaissProducers(c *RuleCtx) {
 					if v != nil && perr != nil && (sameValue(v, perr) || sameValue(resolveLoad(v), perr)) && ns == nonNil {
 						continue
 					}
+					// the producer's own error dressed up by a helper (`return wrapErr("creating index", err)`)
+					// in the branch where that error was found non-nil: nothing was produced
+					if call, ok := v.(*ssa.Call); ok && perr != nil && ns == nonNil && nilnessAt(perr, ret.Block()) == nonNil {
+						wraps := false
+						for _, a := range call.Call.Args {
+							if sameValue(a, perr) || sameValue(resolveLoad(a), perr) {
+								wraps = true
+							}
+						}
+						if wraps {
+							continue
+						}
+					}
 					returned := false
 					for i := range ret.Results {
 						if isIdx(returnedValue(ret, i)) {
@@ -2979,4 +3170,115 @@ func recoverPrefix(cl *ssa.Function) *ssa.BasicBlock {
 		return nil
 	}
 	return next
+}
+
+// producerCalledWithPath: fn calls one of the file producers directly and hands it one of its own string
+// parameters (the path): the producer is judged on its own, fn only wraps it.
+func producerCalledWithPath(p *Program, fn *ssa.Function, producers []*ssa.Function) *ssa.Function {
+	for _, cs := range callSites(fn) {
+		g := staticCallee(cs)
+		if g == nil {
+			continue
+		}
+		isProd := false
+		for _, pr := range producers {
+			if pr == g {
+				isProd = true
+			}
+		}
+		if !isProd {
+			continue
+		}
+		for _, a := range cs.Common().Args {
+			if prm, ok := root(a).(*ssa.Parameter); ok && prm.Parent() == fn {
+				if b, ok := prm.Type().Underlying().(*types.Basic); ok && b.Kind() == types.String {
+					return g
+				}
+			}
+		}
+	}
+	return nil
+}
+
+// fileAcquirer: K opens (creates) a file from one of its string parameters and hands the open file back to
+// its caller — `func createSegmentFile(path string) (f *os.File, cleanup func(), err error)`. Returns the
+// result index of the file, of the error, of a cleanup closure (-1 if none) and the parameter index of
+// the path; ok=false if K is not of that shape (then K is a producer itself, if it opens a file at all).
+type acquirerInfo struct {
+	fileIdx, errIdx, cleanupIdx, pathIdx int
+	cleanup                              *ssa.Function
+}
+
+func fileAcquirer(p *Program, k *ssa.Function) (acquirerInfo, bool) {
+	info := acquirerInfo{-1, -1, -1, -1, nil}
+	if k == nil || len(k.Blocks) == 0 || k.Parent() != nil {
+		return info, false
+	}
+	var open *ssa.Call
+	for _, cs := range callSites(k) {
+		if isCallTo(cs, "os.OpenFile") || isCallTo(cs, "os.Create") {
+			call, ok := cs.(*ssa.Call)
+			if !ok || open != nil {
+				return info, false
+			}
+			open = call
+		}
+	}
+	if open == nil {
+		return info, false
+	}
+	res := k.Signature.Results()
+	for i := 0; i < res.Len(); i++ {
+		switch {
+		case isNamed(res.At(i).Type(), "os", "File"):
+			info.fileIdx = i
+		case isErrorType(res.At(i).Type()):
+			info.errIdx = i
+		default:
+			if _, ok := res.At(i).Type().Underlying().(*types.Signature); ok {
+				info.cleanupIdx = i
+			}
+		}
+	}
+	if info.fileIdx < 0 || info.errIdx < 0 {
+		return info, false
+	}
+	prm, ok := root(open.Call.Args[0]).(*ssa.Parameter)
+	if !ok {
+		return info, false
+	}
+	for i, q := range k.Params {
+		if q == prm {
+			info.pathIdx = i
+		}
+	}
+	if info.pathIdx < 0 {
+		return info, false
+	}
+	file := extractOf(open, 0)
+	// every return hands back the opened file (or nil with an error)
+	for _, ret := range returnsOf(k) {
+		rv := returnedValue(ret, info.fileIdx)
+		if isNilConst(rv) || sameValue(rv, file) || sameValue(resolveLoad(rv), file) {
+			if info.cleanupIdx >= 0 {
+				if mc, ok := resolveLoad(returnedValue(ret, info.cleanupIdx)).(*ssa.MakeClosure); ok {
+					info.cleanup, _ = mc.Fn.(*ssa.Function)
+				}
+			}
+			continue
+		}
+		return info, false
+	}
+	// K itself neither writes nor finishes the file (otherwise it is a producer of its own)
+	for _, cs := range callSites(k) {
+		if cs == ssa.CallInstruction(open) {
+			continue
+		}
+		for _, a := range cs.Common().Args {
+			if sameValue(a, file) {
+				return info, false
+			}
+		}
+	}
+	return info, true
 }
